@@ -11,6 +11,7 @@
      [k |-> "net", mode |-> "ok" | "bad"]                network phase change
      [k |-> "exit"]                                       the manager context is left
      [k |-> "susp"]                                       the client handler of the last delivery suspends
+     [k |-> "sockfail"]                                   the loop refused to create an endpoint (OSError)
 
    Every frame step that is not a delivery (raise, reset head/tail, pump steps, ping and
    background outcomes, task ends) is silent and inferred by TLC; the depth-first queue keeps
@@ -44,6 +45,7 @@ MatchDeliver(t) ==
 SilentTask(t) ==
   /\ CanRun(t)
   /\ (StepRaise(t) \/ StepResetHead(t) \/ StepResetTail(t) \/ StepPump(t) \/ StepPing(t) \/ StepBg(t) \/ StepGather(t))
+  /\ nFail' = nFail                       \* a refused endpoint is a logged event, never inferred
   /\ fresh' = FALSE /\ Stay
 Silent == (\E t \in Tasks : SilentTask(t) \/ (StepEnd(t) /\ Stay)) \/ (StepLoc /\ Stay)
 
@@ -53,9 +55,11 @@ TResetReturn == /\ More /\ E.k = "reset" /\ E.phase = "return"
                 /\ CanRun(USER) /\ StepUserReturn(USER) /\ fresh' = FALSE /\ Step
 TNet == More /\ E.k = "net" /\ net # E.mode /\ NetChange /\ Step
 TExit == More /\ E.k = "exit" /\ Exit /\ Step
+TSockFail == /\ More /\ E.k = "sockfail" /\ CanRun(PUMP) /\ StepPump(PUMP) /\ nFail' = nFail + 1
+             /\ fresh' = FALSE /\ Step
 TEnd == More /\ E.k = "end" /\ (E.exited => exited) /\ UNCHANGED vars /\ Step
 
-TNext == (\E t \in Tasks : MatchDeliver(t)) \/ Silent \/ TSusp \/ TResetStart \/ TResetReturn \/ TNet \/ TExit \/ TEnd
+TNext == (\E t \in Tasks : MatchDeliver(t)) \/ Silent \/ TSusp \/ TResetStart \/ TResetReturn \/ TNet \/ TExit \/ TSockFail \/ TEnd
 TSpec == TInit /\ [][TNext]_tvars
 
 InvNames == << <<"ConnectedSound", ConnectedSound>>, <<"ReadyIffEnterConnected", ReadyIffEnterConnected>>,
